@@ -7,13 +7,21 @@ import (
 	"encoding/binary"
 	"fmt"
 	"io"
+	"os"
+	"strconv"
 
 	"go.uber.org/thriftrw/internal/zzsim/ref"
 	"go.uber.org/thriftrw/internal/zzsim/simrt"
 )
 
-// APIVersion is plugin/api.thrift's API_VERSION (the protocol's constant).
-const APIVersion = 4
+// APIVersion is plugin/api.thrift's API_VERSION: the builder reads it from the
+// IDL of the tree under test and passes it in VSIM_API_VERSION (4 at the pinned commit).
+var APIVersion = func() int64 {
+	if v, err := strconv.Atoi(os.Getenv("VSIM_API_VERSION")); err == nil && v > 0 {
+		return int64(v)
+	}
+	return 4
+}()
 
 type Step int
 
